@@ -353,6 +353,11 @@ class YAMLSpecification(Specification):
         3. If the label is a list, its length must match the value length.
         """
         try:
+            if not isinstance(self.globals, dict):
+                raise jsonschema.ValidationError(
+                    "The global.parameters block must be a mapping of "
+                    "parameter names to their values and labels."
+                )
             if self.globals:
                 global_names = set()
                 values_len = -1
